@@ -451,6 +451,7 @@ type numExpect struct {
 	f      float64
 	reject bool // must be rejected
 	weak   bool // {rejected, float f}
+	paren  bool // the literal is parenthesised: fold before comparing
 }
 
 func judgeNumber(t rk.Failer, slot, spelling, sign string, ex numExpect, nontrivial bool) {
@@ -460,7 +461,10 @@ func judgeNumber(t rk.Failer, slot, spelling, sign string, ex numExpect, nontriv
 	if bad != "" {
 		rk.Fail(t, slot, rp, "%s\nsource: %q", bad, src)
 	}
-	neg := sign == "-"
+	neg := strings.Count(sign, "-")%2 == 1
+	if node != nil && (len(strings.TrimSpace(sign)) > 1 || ex.paren) {
+		node = gen.Fold(gen.StripParens(node.Clone())) // several signs / parentheses: the value of the whole operand
+	}
 	if ex.reject {
 		if node != nil {
 			rk.Fail(t, slot, rp, "malformed number %q was accepted as %s", src, node.Shape())
@@ -573,8 +577,20 @@ func TestFloats(t *testing.T) {
 	for _, c := range []struct {
 		s string
 		f float64
-	}{{"1.", 1}, {"1e5", 1e5}, {"1E+5", 1e5}, {"1e-5", 1e-5}, {"0.5", 0.5}, {"1.5e3", 1500}, {"0.0", 0}, {"10.25", 10.25}, {"1E5", 1e5}, {"2.5E-3", 0.0025}, {"0e0", 0}, {"123456789.125", 123456789.125}} {
-		for _, sign := range []string{"", "-", "+"} {
+	}{{"1.", 1}, {"1e5", 1e5}, {"1E+5", 1e5}, {"1e-5", 1e-5}, {"0.5", 0.5}, {"1.5e3", 1500}, {"0.0", 0}, {"10.25", 10.25}, {"1E5", 1e5}, {"2.5E-3", 0.0025}, {"0e0", 0}, {"123456789.125", 123456789.125},
+		// values at the integer boundaries written as floats, zeros in every spelling, underflow to zero, the largest finite values
+		{"9223372036854775808.0", 9223372036854775808}, {"9.223372036854775808e18", 9223372036854775808}, {"9223372036854775807.0", 9223372036854775807}, {"18446744073709551616.0", 18446744073709551616},
+		{"4294967296.0", 4294967296}, {"2147483648.0", 2147483648}, {"9007199254740993.0", 9007199254740992}, {"0.", 0}, {"0E+5", 0}, {"0.000", 0}, {"1e-400", 0}, {"0.1e-999", 0}, {"4.9e-324", 5e-324}, {"2.4e-324", 0},
+		{"1.7976931348623157e308", math.MaxFloat64}, {"0.1", 0.1}, {"0.30000000000000004", 0.30000000000000004}, {"1e23", 1e23}, {"8.41e21", 8.41e21}} {
+		for _, sign := range []string{"", "-", "+", "- -", "-+", "+-", "- - -", "-(", "--"} {
+			if sign == "-(" {
+				// a parenthesised literal under a sign
+				judgeNumber(t, "floats", "("+c.s+")", "-", numExpect{f: c.f, weak: false, paren: true}, true)
+				continue
+			}
+			if sign == "--" {
+				continue // "--" is not an operator; covered by the malformed table of C05
+			}
 			judgeNumber(t, "floats", c.s, sign, numExpect{f: c.f}, true)
 		}
 	}
